@@ -5,6 +5,7 @@ Space  : every run layout of U_layout(k, L, P3) (empty runs and the zero-run val
 Oracle : cells(result) == cells(f)[:start] + cells(new) + cells(f)[end:]; f's snapshot unchanged.
 """
 from mc import cells as C
+from mc import repeat
 from mc.runner import Acc, Report
 
 LEVEL = "model_checking"
@@ -121,11 +122,11 @@ def shard_exotic(args):
     """Long / many-run / unusual-character values: splice at every pair of boundary points with every replacement value."""
     tier, seed, idx = args
     acc = Acc(seed=seed)
-    specs = C.exotic_specs() + C.huge_specs()
+    specs = C.exotic_specs() + C.huge_specs() + C.scale_specs(tier == "thorough")
     nsmall = len(C.exotic_specs())
     news = [make_new(ns) for ns in NEW_SPECS]
     news_cells = [C.cells(n) for n in news]
-    for si in range(idx, len(specs), 16):
+    for si in range(idx, len(specs), 48):
         spec = specs[si]
         f = C.build(spec)
         fcells = C.spec_cells(spec)
@@ -146,7 +147,8 @@ def shard_exotic(args):
 
 def run(ctx):
     rep = Report()
-    for d in ctx.pmap(shard_exotic, [(ctx.tier, ctx.seed, i) for i in range(16)]):
+    repeat.run_into(ctx, rep, "C09")
+    for d in ctx.pmap(shard_exotic, [(ctx.tier, ctx.seed, i) for i in range(48)]):
         rep.merge(d, "long_and_exotic_values")
     k, L = bounds(ctx.tier)
     for d in ctx.pmap(shard, [(ctx.tier, ctx.seed, i) for i in range(NSHARDS)]):
